@@ -312,7 +312,7 @@ func (fv *FV) resolveDyn(st *State, recv Val, m *types.Func) (target *ssa.Functi
 		fmt.Fprintf(os.Stderr, "resolveDyn %s in %s: %v\n", m.Name(), fv.fc.Key, res)
 	}
 	ntrue := 0
-	for _, r := range res {
+	for _, r := range res[:len(cands)] {
 		if r {
 			ntrue++
 		}
